@@ -174,10 +174,15 @@ class Mutator(object):
                 return q, 'query-repeat'
             k, v = r.choice(pref)
             n = r.choice([61, 64, 65, 130])
-            if r.random() < 0.3 and v:
-                q[q.index((k, v))] = (k, ','.join([v] * n))
+            # (one value per repetition: n joined 'in:' lists that each match
+            # twice make 2^n rows - a request that is never answered, which no
+            # finite run decides)
+            one = (v or '').replace('in:', '').replace('in%3A', '')
+            one = one.split(',')[0].split('%2C')[0]
+            if r.random() < 0.3 and one:
+                q[q.index((k, v))] = (k, ','.join([one] * n))
             else:
-                q.extend([(k, v)] * n)
+                q.extend([(k, one)] * n)
         elif kind == 'conflict':
             k, v = r.choice(q)
             q.insert(r.randrange(len(q) + 1),
@@ -197,7 +202,10 @@ class Mutator(object):
             big = r.choice(['99999999999999999999', '9223372036854775808',
                             '2147483648', '-1', '0', '1e9', '٣',
                             # beyond what int() converts (4300 digits)
-                            '9' * 4400, '1_0', '+2', '%202', '0x10'])
+                            '9' * 4400, '1_0', '+2', '%202', '0x10',
+                            # digits for str.isdigit() that int() refuses
+                            '%C2%B2', '%E2%91%A0', '1%C2%B3', '%E2%92%8B',
+                            '%E0%B9%93', '%EF%BC%95'])
             if ':' in v or '%3A' in v:
                 head = v.split('%3A')[0].split(':')[0]
                 q[i] = (q[i][0], '%s:%s' % (head, big))
